@@ -451,7 +451,7 @@ fn eval(e: &syn::Expr, env: &Env) -> Result<Val, String> {
         Expr::MethodCall(m) => {
             let name = m.method.to_string();
             match name.as_str() {
-                "unwrap" | "to_owned" | "clone" | "into" | "to_string" => eval(&m.receiver, env),
+                "unwrap" | "to_owned" | "clone" | "into" | "try_into" | "to_string" => eval(&m.receiver, env),
                 "collect" => {
                     // [bools].into_iter().collect()
                     if let Expr::MethodCall(inner) = &*m.receiver {
@@ -1114,6 +1114,12 @@ pub fn cases(tier: Tier) -> Vec<Case> {
                 let feat = format!("len={}{}{}", s.len().min(3), if s.contains(&"\"\"") { "+quote" } else { "" }, if s.iter().any(|a| !a.is_ascii()) { "+multibyte" } else { "" });
                 add(&format!("cstring:{ty}"), ty, "", format!("\"{src}\""), Val::Str(want), feat);
             }
+        }
+        // OCTET STRING types of fixed size (FixedOctetString in the bindings), directly and through a reference
+        for (v, bytes) in [("'ABCD'H", vec![0xABu8, 0xCD]), ("'0000'H", vec![0, 0]), ("'0000000110000000'B", vec![1, 0x80])] {
+            add("hstring:octets-fixed", "Fx", "Fx ::= OCTET STRING (SIZE (2))", v.to_string(), Val::Octets(bytes.clone()), "fixed-size-type".into());
+            add("hstring:octets-fixed", "Fy", "Fx ::= OCTET STRING (SIZE (2))\nFy ::= Fx", v.to_string(), Val::Octets(bytes.clone()), "fixed-size-type-via-reference".into());
+            add("hstring:octets-fixed", "OCTET STRING (SIZE (2))", "", v.to_string(), Val::Octets(bytes), "fixed-size-inline".into());
         }
         // character strings that consist of tstring characters only (digits and + - : . , / C D H M R P S T W Y Z with
         // at least one of each kind): lexically they are also time values
